@@ -17,6 +17,14 @@ KEY = ("prs-slide-masters.pptx", "sld-notes.pptx", "cht-plot-props.pptx", "shp-g
        "act-props.pptm", "shp-picture.pptx", "no-core-props.pptx", "ph-unpopulated-placeholders.pptx", "ph-populated-placeholders.pptx")
 
 
+# decks whose PACKAGE structure is special: a part typed without "+xml" that has relationships of its own (legacy VML drawing -> image)
+OPC_KEY = ("shp-access-ole-object.pptx",)
+
+
+def opc_key_decks() -> list[str]:
+    return [p for p in decks() if os.path.basename(p) in OPC_KEY]
+
+
 def key_decks() -> list[str]:
     """Structurally special decks (several masters, notes, multi-plot charts, groups, tables, macros, no core props)."""
     return [p for p in decks() if os.path.basename(p) in KEY]
